@@ -45,7 +45,10 @@ class Undef:
 
 
 def is_undef(v):
-    return isinstance(v, Undef)
+    if isinstance(v, Undef):
+        return True
+    # an undefined object of the engine handed in as data / as an element of a data list
+    return hasattr(type(v), "_undefined_name") and hasattr(type(v), "_fail_with_undefined_error")
 
 
 def undef_error(v):
